@@ -135,7 +135,7 @@ pub fn main(args: &Args, cfg: &str) -> i32 {
             }
         };
     }
-    let cases = if args.cases > 0 { args.cases } else if args.thorough() { 300000 } else { 20000 };
+    let cases = if args.cases > 0 { args.cases } else if args.thorough() { 600000 } else { 60000 };
     let res = drive(&case_strategy(), cases, args.seed ^ 0xC05, 2000, &mut run, |c, run| interpret(c, Some(run)));
     let code = match res {
         DriveResult::Pass => 0,
